@@ -1140,12 +1140,64 @@ def gen_curved_case(rng):
     return {'kind': kind, 'shapes': members, 'steps': steps, 'pre': rng.sample(READABLE, rng.randint(0, 2)), 'family': 'curved:' + mode}
 
 
+def apply_filter(c, st):
+    k = st[0]
+    if k in ('int', 'contains', 'contained_by'):
+        q = build(st[1])
+        return {'int': c.filter_by_intersection, 'contains': c.filter_contains, 'contained_by': c.filter_contained_by}[k](q)
+    if k == 'dt':
+        return c.filter_by_dt(to_dt(st[1], st[2]))
+    return c.filter_by_dt(TimeInterval(to_dt(st[1], st[3]), to_dt(st[2], st[3])))
+
+
+def filter_laws(rng, spec):
+    """the theorems of Props/C18b.v on the implementation: members are identified by their position in the source
+    (results hold the same objects), so the laws are judged on id lists.  Returns the first failing law (text) or None"""
+    cls = Track if spec['kind'] == 'TR' else FeatureCollection
+    src = guarded(lambda: cls([build(sh) for sh in spec['shapes']]))
+    if src[0] != 'Ok':
+        return None
+    src = src[1]
+    sel = [st for st in spec['steps'] if st[0] in ('int', 'contains', 'contained_by', 'dt', 'iv')]
+    if len(sel) < 2:
+        return None
+    ids = lambda c: [id(x) for x in c.geoshapes]      # noqa: E731
+    pos = {id(x): i for i, x in enumerate(src.geoshapes)}
+    for _ in range(3):
+        f, g = rng.choice(sel), rng.choice(sel)
+        r = guarded(lambda: (apply_filter(src, f), apply_filter(src, g)))
+        if r[0] != 'Ok':
+            continue                          # a raising filter is judged by the main family
+        pf, pg = r[1]
+        r2 = guarded(lambda: (apply_filter(pf, g), apply_filter(pg, f), apply_filter(pf, f)))
+        if r2[0] != 'Ok':
+            return f'a filter that answers on the collection raised on a filter result: {r2[1]} (filters {f[0]}, {g[0]})'
+        fg, gf, ff = r2[1]
+        if ids(fg) != ids(gf):
+            return f'C18_filter_commute: {f[0]} then {g[0]} keeps positions {[pos.get(i) for i in ids(fg)]}, the other order {[pos.get(i) for i in ids(gf)]}'
+        if ids(fg) != [i for i in ids(pf) if i in set(ids(pg))]:
+            return f'C18_filter_compose: {f[0]} then {g[0]} is not the members passing both'
+        if ids(ff) != ids(pf):
+            return f'C18_filter_idem: {f[0]} applied to its own result changes it'
+        if len(pf.geoshapes) > len(src.geoshapes) or [pos.get(i) for i in ids(pf)] != sorted(pos.get(i, -1) for i in ids(pf)):
+            return f'C18_filter_length / order: {f[0]}'
+        if type(fg) is not type(src):
+            return 'C18_filter_kind on a chained result'
+        if f[0] == 'contains' and g[0] == 'int' and f[1] is g[1]:
+            inter = set(ids(pg))
+            per = [guarded(lambda x=x: (x.contains(build(f[1])), x.intersects(build(f[1])))) for x in src.geoshapes]
+            if all(p[0] == 'Ok' and (not p[1][0] or p[1][1]) for p in per) and any(i not in inter for i in ids(pf)):
+                return 'C18_filter_mono: a member kept by filter_contains is dropped by filter_by_intersection although containment implies intersection member-wise'
+    return None
+
+
 def main():
     ck = Check('C18')
-    ck.build_theories(['theories/Props/C18.vo', 'theories/Corr/FilterK.vo'])
+    ck.build_theories(['theories/Props/C18.vo', 'theories/Props/C18b.vo', 'theories/Corr/FilterK.vo'])
     rep = gen_coll.main(REPO, os.path.join(ck.rundir, 'CollGen.v'))      # the filters regenerated from collections.py ...
     ck.gen('CollGen.v', rep, 'CollGenEq.v')                              # ... proved equal to FilterM for all arguments
     ck.props('Props/C18.v')
+    ck.props('Props/C18b.v')     # filter algebra: composition = conjunction, commutation, idempotence, monotonicity, partition
     rng = ck.rng
     quick = ck.tier == 'quick'
     cases, meta, failing = [], [], {}
@@ -1165,6 +1217,18 @@ def main():
         ck.count(spec['kind'] + (':rejected' if m['first'][0] != 'Ok' else ''))
         for c in stats['classes']:
             ck.count('op:' + c)
+    # L. filter algebra (Props/C18b.v) on the implementation, chained on library-returned collections
+    n_laws, law_bad = 0, []
+    for _ in range(250 if quick else 5000):
+        spec = gen_case(rng)
+        why = guarded(lambda: filter_laws(rng, spec))
+        n_laws += 1
+        if why[0] == 'Ok' and why[1]:
+            law_bad.append((spec, why[1]))
+    for spec, why in law_bad[:3]:
+        ck.violation({'kind': 'property-fails-on-implementation', 'case': {'k': 'filter-laws', 'kind': spec['kind'], 'shapes': spec['shapes']},
+                      'detail': why, 'theorems': 'Props/C18b.v'})
+    ck.cov['filter_law_cases'] = n_laws
     # H. hash-colliding members (see gen_collision_cases)
     for _ in range(150 if quick else 800):
         for spec in gen_collision_cases(rng):
